@@ -231,8 +231,16 @@ func (o c14Op) name() string {
 	return o.kind
 }
 
+func (a *c14Acct) stor() [c14NS]uint8 {
+	if a == nil {
+		return [c14NS]uint8{}
+	}
+	return a.Stor
+}
+
 func c14Ops() []c14Op {
 	var ops []c14Op
+	base := c14BaseView()
 	ops = append(ops, c14Op{kind: "endtx"}, c14Op{kind: "endblock"})
 	for _, a := range []int{0, 2} {
 		ops = append(ops,
@@ -244,6 +252,17 @@ func c14Ops() []c14Op {
 			c14Op{kind: "addbal", a: a},
 			c14Op{kind: "setcode", a: a},
 		)
+		// "restore" writes: every slot that the alphabet can change can also be written back
+		// to the value it has in the committed base state (A: s0=1, s2=0; C: s0=0 is above, s2=0)
+		for k, v := range base[a].stor() {
+			if k == 1 {
+				continue // s1 is never written
+			}
+			if k == 0 && v == 0 {
+				continue // SetState(s0,0) is already in the alphabet
+			}
+			ops = append(ops, c14Op{kind: "set", a: a, slot: k, val: v})
+		}
 	}
 	ops = append(ops, c14Op{kind: "copyOnCopy"}, c14Op{kind: "copyOnOrig"})
 	return ops
@@ -285,6 +304,12 @@ var c14Armed, c14Reopens, c14Persisted, c14AsideSweeps, c14Resurrections, c14Wip
 
 func c14NewSys(r *mc.R, cfg *c14Cfg, ops []c14Op) *c14Sys {
 	x := &c14Sys{r: r, cfg: cfg, rules: cfg.rules(), ops: ops, replayLen: -1}
+	// Fail fast: once the tree is known to violate the property the verdict is fixed, and
+	// exploring deeper on broken code risks a panic in one of StateDB's commit goroutines,
+	// which would take the whole process (and the recorded counterexamples) down.
+	if !r.Replaying() && r.Violations() > 0 {
+		r.NotExhaustive("exploration stopped after the first violation")
+	}
 	if r.Replaying() {
 		var d struct {
 			Ops []string `json:"ops"`
@@ -577,6 +602,11 @@ func (x *c14Sys) endBlock(check bool) error {
 			}
 			if err := x.verifyRoot(root, &x.m.cur, "block state after the other side of the Copy was committed too"); err != nil {
 				return err
+			}
+			if !x.cfg.Path { // the hash scheme keeps both forks when one of them is flushed
+				if err := x.verifyPersisted(aroot, &x.am.cur); err != nil {
+					return fmt.Errorf("state committed from the %s left aside: %v", x.asideWhat, err)
+				}
 			}
 		}
 		x.aside, x.am = nil, nil
@@ -941,6 +971,8 @@ func c14Configs(r *mc.R) []*c14Cfg {
 		{Name: "path", Depth: deep, Path: true},
 		{Name: "hash+snapshot@A-destructed", Depth: shallow, Snap: true, Prefix: []string{"SelfDestruct(A)", "EndTx"}},
 		{Name: "path@A-destructed", Depth: deep, Path: true, Prefix: []string{"SelfDestruct(A)", "EndTx"}},
+		{Name: "path@A-two-slots-written", Depth: deep, Path: true, Prefix: []string{"SetState(A,s0,3)", "SetState(A,s2,4)", "EndTx"}},
+		{Name: "hash+snapshot@A-two-slots-written", Depth: shallow, Snap: true, Prefix: []string{"SetState(A,s0,3)", "SetState(A,s2,4)", "EndTx"}},
 		{Name: "path/cancun", Depth: shallow, Path: true, Cancun: true},
 		{Name: "hash", Depth: shallow, Path: false},
 		{Name: "hash+snapshot/cancun", Depth: shallow, Snap: true, Cancun: true},
@@ -953,7 +985,7 @@ func TestVerif_C14(t *testing.T) {
 	mc.Run(t, "C14", func(r *mc.R) {
 		defer debug.SetGCPercent(debug.SetGCPercent(400)) // allocation-heavy, tiny live heap
 		r.Rule("BFS over operation sequences on a StateDB opened on a committed base state (contract A with code and 2 slots, plain account B, absent C, untouched contract D); " +
-			"alphabet on A and C: SetState(s0,3|0), SetState(s2,4), SelfDestruct, Create (= evm.create: CreateAccount if absent, CreateContract, nonce 1), AddBalance, SetCode; " +
+			"alphabet on A and C: SetState(s0,3|0), SetState(s2,4), writes of the committed base value of s0/s2 (restore), SelfDestruct, Create (= evm.create: CreateAccount if absent, CreateContract, nonce 1), AddBalance, SetCode; " +
 			"EndTx (Finalise), EndBlock (IntermediateRoot, Commit, next block on state.New(root)), Copy continuing on the copy / on the original (the other side is left alone and committed at EndBlock); " +
 			"one exploration per configuration {hash, hash+snapshot, path} x {pre-Cancun, Cancun} (+ prefetcher); a state = model + white-box fingerprint of the StateDB(s)")
 		r.Assume("reference model = plain account table (balance, nonce, code, storage) with transaction/block boundaries; expected roots from an ordered stack trie over the table")
